@@ -2,4 +2,4 @@ From OAS Require Import Lib.Str Model.Discrim.
 Require Extraction.
 Require Import ExtrOcamlBasic ExtrOcamlString.
 Extraction Blacklist String List Nat.
-Extraction "Extract/c14_model.ml" base_enum upgrade dispatch arms fallback.
+Extraction "Extract/c14_model.ml" base_enum upgrade dispatch arms fallback synth.
